@@ -32,4 +32,4 @@ def r01_8(ctx):
 
 
 def run(ctx):
-    engine.run_rules(ctx, [r01_8, ras.r01_1, ras.r01_2, ras.r01_3, ras.r01_4_close, ras.r01_5, ras.r01_6, ras.r08_5, ras.r08_7, ras.r01_9, ras.r01_10, ras.r01_11, ras.r01_12, ras.r10_1, ras.r10_2, ras.r10_5, ras.r08_34, ras.r08_6])
+    engine.run_rules(ctx, [r01_8, ras.r01_1, ras.r01_2, ras.r01_3, ras.r01_4_close, ras.r01_5, ras.r01_6, ras.r08_5, ras.r08_7, ras.r01_9, ras.r01_10, ras.r01_11, ras.r01_12, ras.r01_13, ras.r01_14, ras.r10_1, ras.r10_2, ras.r10_5, ras.r08_34, ras.r08_6])
